@@ -127,8 +127,11 @@ def judge(cfg, w):
             fails.append(("after events stopped the pool did not converge: " + "; ".join(problems), key))
     elif out == "exit":
         status = w.outcome[1]
-        if boot_reaped:
-            want = boot_reaped[0][1] >> 8
+        # a boot failure reaped before the master began to stop decides the exit status; one reaped during a
+        # shutdown that was already under way does not
+        first = [(p, s) for p, s in boot_reaped if w.final_stop_at is None or w.reap_at.get(p, 0) <= w.final_stop_at]
+        if first:
+            want = first[0][1] >> 8
             if status != want:
                 fails.append(("a worker exited with boot-failure code %d but the master exited with status %r" % (want, status), None))
         elif status != 0:
@@ -136,8 +139,8 @@ def judge(cfg, w):
         if w.forks_after_stop:
             fails.append(("%d fork(s) after the master began to halt" % w.forks_after_stop, None))
     elif out == "crash":
-        key = KEY_D22 if (len(boot_reaped) >= 2 and w.stopping_at is not None
-                          and w.reap_at.get(boot_reaped[-1][0], -1) >= w.stopping_at) else None
+        key = KEY_D22 if (boot_reaped and w.final_stop_at is not None
+                          and w.reap_at.get(boot_reaped[-1][0], -1) >= w.final_stop_at) else None
         fails.append(("HaltServer escaped from Arbiter.run() (exit status 1 with a traceback, pid file kept): %s; boot failures reaped: %r"
                       % (w.outcome[1], boot_reaped), key))
     else:
@@ -292,6 +295,8 @@ def run(ctx):
         ctx.log("CORRESPONDENCE: %d schedules differ" % len(bad))
     if (bad or bad is None or not ok) and not ctx.violations:
         search(ctx, [corr[i][2] for i, _, _ in (bad or [])[:40]])
+    if not ctx.quick():
+        real_processes(ctx)
 
 
 def report(ctx, failures):
@@ -353,7 +358,66 @@ def search(ctx, seeds):
     report(ctx, fails)
 
 
+def real_processes(ctx):
+    """thorough tier, supporting exploration: a real master under kill -9 / TTIN / TTOU / HUP and with an application
+    that cannot boot; the process table is compared with the target after every event."""
+    import signal as sg
+    import time
+    import lib_realproc as R
+    notes = []
+    for cls in ("sync", "gthread"):
+        srv = R.Server(workers=3, worker_class=cls, timeout=30)
+        try:
+            ok = srv.wait_workers(3, 15)
+            steps = [("start", 3, ok)]
+            live, _ = srv.workers()
+            if live:
+                import os
+                os.kill(live[0], sg.SIGKILL)
+                t = srv.wait_for(lambda: len(srv.workers()[0]) == 3 and live[0] not in srv.workers()[0] and not srv.workers()[1], 10)
+                steps.append(("kill -9 one worker", 3, t))
+            srv.signal(sg.SIGTTIN)
+            steps.append(("TTIN", 4, srv.wait_workers(4, 10)))
+            srv.signal(sg.SIGTTOU)
+            time.sleep(0.3)
+            srv.signal(sg.SIGTTOU)
+            steps.append(("TTOU x2", 2, srv.wait_workers(2, 15)))
+            before = set(srv.workers()[0])
+            srv.signal(sg.SIGHUP)
+            t = srv.wait_for(lambda: len(srv.workers()[0]) == 2 and not (set(srv.workers()[0]) & before) and not srv.workers()[1], 20)
+            steps.append(("HUP (all workers replaced)", 2, t))
+            for what, want, t in steps:
+                ctx.hist("real_process_step", "%s:%s" % (what, "ok" if t is not None else "FAILED"))
+                if t is None:
+                    notes.append("%s worker class: after %s the process table did not reach %d live workers (now %r)" % (cls, what, want, srv.workers()))
+        finally:
+            rc = srv.stop()
+    # an application that cannot boot: one worker -> exit status 3; four workers -> D22 (status 1, pid file kept)
+    for nw in (1, 4):
+        srv = R.Server(workers=nw, app="bootfail:app", graceful=3)
+        try:
+            srv.wait_for(lambda: srv.proc.poll() is not None, 25)
+            rc = srv.proc.poll()
+            pidfile_left = __import__("os").path.exists(srv.pidfile)
+            ctx.hist("real_boot_failure", "workers=%d exit=%r pidfile_left=%s" % (nw, rc, pidfile_left))
+            if rc is None:
+                notes.append("boot failure with %d worker(s): the master did not exit" % nw)
+            elif rc != 3:
+                if nw > 1 and rc == 1 and ctx.known.has(ctx.prop, KEY_D22):
+                    ctx.violation("real processes: %d workers fail to boot: master exit status %r, pid file left: %s" % (nw, rc, pidfile_left), {}, key=KEY_D22)
+                else:
+                    notes.append("boot failure with %d worker(s): master exit status %r instead of 3 (pid file left: %s)" % (nw, rc, pidfile_left))
+        finally:
+            srv.stop()
+    ctx.extra["real_process_notes"] = notes
+    for n in notes:
+        ctx.violation("real processes (supporting exploration): " + n, {"kind": "real-process", "note": n})
+
+
 def replay(rep):
+    if rep.get("kind") == "real-process":
+        print("real-process observation (not replayable in-process):", rep.get("note"))
+        return 1
     cfg = rep["cfg"]
     script = [tuple(x) for x in rep["schedule"]]
     w = run_case(cfg, script)
